@@ -10,6 +10,9 @@
 (* (seccompdenied: the command itself runs under an enclosing filter that  *)
 (* answers seccomp(2) with ENOSYS, so that its own filter cannot be        *)
 (* installed - one more way in which "the kernel refuses the filter")      *)
+(* (execdenied: a valid policy that loads but does not let execve through - *)
+(* deny by default, execve in no group -, so that the command's own start   *)
+(* of the target is refused by the filter it has just installed)            *)
 (* The kernel part (filter survives execve, thread-sync covers the         *)
 (* runtime's threads, the target sees Decide) is Loader.tla's / Compile's. *)
 (* The policy file may be big (larger than any buffer) and the decisive     *)
@@ -19,7 +22,9 @@
 (* "IgnoreLoadError", "TruncatedRead" (only a prefix of a big file is      *)
 (* parsed), "SkipWhenUnsupported" (when Supported() answers false the load  *)
 (* is skipped and the target runs without a filter), "ZeroMeansUnset" (a default action of kill_thread - numeric    *)
-(* value 0 - is taken for "not given" and replaced by errno)               *)
+(* value 0 - is taken for "not given" and replaced by errno),              *)
+(* "ExecveAppended" (a deny-by-default policy that does not name execve is  *)
+(* given an allow group for it before it is loaded)                        *)
 (***************************************************************************)
 EXTENDS Integers, Sequences, TLC
 CONSTANTS Faults, Dev
@@ -63,7 +68,7 @@ Load ==
           /\ UNCHANGED <<fault, parsed, targetStarted, exitCode, complete>> /\ UNCHANGED fvars
 Exec ==
   /\ pc = "loaded"
-  /\ IF fault = "notarget" THEN Fail("exec-error")
+  /\ IF fault = "notarget" \/ (fault = "execdenied" /\ "ExecveAppended" \notin Dev) THEN Fail("exec-error")
      ELSE /\ pc' = "spawned" /\ targetStarted' = TRUE /\ events' = Append(events, "execve-target")
           /\ UNCHANGED <<fault, parsed, loaded, exitCode, complete>> /\ UNCHANGED fvars
 Exit ==
@@ -93,7 +98,10 @@ Observes(a) == CASE a \in {"allow", "log"} -> "runs"
                  [] a = "trap" -> "SIGSYS delivered"
 \* parsePolicy hands the unpacked policy to LoadFilter as it is
 Enforced(a) == IF "ZeroMeansUnset" \in Dev /\ a = "kill_thread" THEN "errno" ELSE a
-PolicyAsWritten == \A a \in Actions : Observes(Enforced(a)) = Observes(a)
+\* ... for every call the target makes, its own execve included: what the default action a answers to a call that no group names
+Calls == {"probe", "execve"}
+EnforcedFor(call, a) == IF "ExecveAppended" \in Dev /\ call = "execve" /\ a \notin {"allow", "log"} THEN "allow" ELSE Enforced(a)
+PolicyAsWritten == \A a \in Actions, call \in Calls : Observes(EnforcedFor(call, a)) = Observes(a)
 
 \* the strace view: no execve of the target before a successful seccomp
 TraceOrder ==
